@@ -106,7 +106,7 @@ def run(ctx):
     for name in FAMS:
         fam = zoo.BY_NAME[name]
         for k in range(per):
-            crng = np.random.default_rng([ctx.seed, 2, hash(name) % 2**31, k])
+            crng = np.random.default_rng([ctx.seed, 2, core.shash(name), k])
             cfg = fam.config(crng)
             n = int(crng.choice([300, 700])) if fam.kind == "stream" else int(crng.choice([10, 18, 30]))
             if name == "KdqTreeStreaming":
